@@ -133,7 +133,10 @@ def make_case(i, rng, tier):
         starts_with_pair = len(blob) >= 2 and all(c in b"0123456789abcdefABCDEF" for c in blob[:2])
         if root == model.STREAM and (container == "pcapng" or (container == "hex" and starts_with_pair)):
             tasks.append(dict(front, id="auto", front="auto", source="bytes"))
-        if root == model.STREAM and rng.random() < 0.3 and len(carried) >= 2:      # detection looks at two bytes
+        # detection looks at two bytes: two hex digits "may be hex" (documented ambiguity), 0a 0d is a pcapng section header -
+        # malformed traffic can start with anything, so only bytes that can be nothing but binary are given to Auto as binary
+        carried_is_plainly_binary = len(carried) >= 2 and not all(c in b"0123456789abcdefABCDEF" for c in carried[:2]) and carried[:2] != b"\x0a\x0d"
+        if root == model.STREAM and rng.random() < 0.3 and carried_is_plainly_binary:
             tasks.append(dict(common.spec("autobin", root, carried, None, None, strict=strict), front="auto"))
     tasks, sched = common.perturb(rng, tasks, p_by=0.1)
     return {"input": {"label": inp["label"], "container": container, "fault": fault, "message_faults": mfaults},
@@ -218,6 +221,11 @@ def check(case):
         ta = w.tasks.get(aid)
         if ta is None:
             continue
+        if aid == "autobin":
+            head = bytes.fromhex(ta.spec["data"][:4])
+            if len(head) < 2 or all(c in b"0123456789abcdefABCDEF" for c in head) or head == b"\x0a\x0d":
+                res.count("skipped:auto-on-bytes-that-may-be-hex")
+                continue
         if ta.items != ref.items or ta.outcome() != ref.outcome():
             res.v("C15.b", "C15.b:%s" % (cont if aid == "auto" else "binary"), "%s: Auto front-end differs from the %s front-end: %s; outcomes %r vs %r" % (
                 label, cont if aid == "auto" else "binary", common.show_diff(ta.items, ref.items), ta.outcome(), ref.outcome()))
